@@ -61,6 +61,7 @@ CONSTANTS
   PreStates,  \* pre-states an object may start in: "absent", "free", "R1", "Q"
   MaxRej,     \* at most this many objects are refused by the API server (scripted Invalid)
   FreeRefs,   \* TRUE: R1's status.objectRefs is {} or Pkg1 independently of the pre-states
+  Grabs,      \* TRUE: another owner may take control of package objects in the middle of an Establish
   MaxEdits,   \* bound on environment steps
   MaxFaults,  \* bound on injected faults
   MaxRecs     \* bound on reconciles
@@ -89,12 +90,13 @@ VARIABLES
   crt,      \* objects the Establish in flight found missing and dry-run created (their reference loses its kind)
   vok,      \* ghost: objects whose dry-run succeeded in the Establish in flight
   blk,      \* ghost: Blocked when the Establish in flight started
+  stale,    \* objects another owner took control of after the Establish in flight read them (its copy is out of date)
   edits, faults, recs,
   doneOk,   \* ghost: the last reconcile completed (no fault) and the environment did nothing since
   hist      \* ghost: the behaviour so far as scenario steps (hidden by VIEW)
 
-vars == <<obj, rej, rev, pc, cur, ctl, todo, sub, setrefs, crt, vok, blk, edits, faults, recs, doneOk, hist>>
-view == <<obj, rej, rev, pc, cur, ctl, todo, sub, setrefs, crt, vok, blk, edits, faults, recs, doneOk>>
+vars == <<obj, rej, rev, pc, cur, ctl, todo, sub, setrefs, crt, vok, blk, stale, edits, faults, recs, doneOk, hist>>
+view == <<obj, rej, rev, pc, cur, ctl, todo, sub, setrefs, crt, vok, blk, stale, edits, faults, recs, doneOk>>
 
 NoOwn == [u \in UIDs |-> None]
 Ctrl(ob) == IF \E u \in UIDs : ob.own[u] = "ctrl" THEN CHOOSE u \in UIDs : ob.own[u] = "ctrl" ELSE None
@@ -117,7 +119,7 @@ Init ==
     /\ rev = [r \in Revs |-> IF r = "R1" THEN [act |-> a1, refs |-> rf, bad |-> {}]
                                                   ELSE [act |-> a2, refs |-> {}, bad |-> {}]]
     /\ pc = "idle" /\ cur = "R1" /\ ctl = FALSE /\ todo = <<>> /\ sub = "get" /\ setrefs = FALSE
-    /\ crt = {} /\ vok = {} /\ blk = {}
+    /\ crt = {} /\ vok = {} /\ blk = {} /\ stale = {}
     /\ edits = 0 /\ faults = 0 /\ recs = 0 /\ doneOk = FALSE
     /\ hist = << [t |-> "init", pre |-> pre, rej |-> rj, act1 |-> a1, act2 |-> a2, refs1 |-> rf,
                   pkg1 |-> Pkg1, pkg2 |-> Pkg2, oseq |-> OSeq] >>
@@ -127,12 +129,26 @@ Init ==
 (* It acts between reconciles of the revision controller.                  *)
 
 EnvUnch == /\ doneOk' = FALSE /\ edits' = edits + 1
-           /\ UNCHANGED <<obj, rej, pc, cur, ctl, todo, sub, setrefs, crt, vok, blk, faults, recs>>
+           /\ UNCHANGED <<obj, rej, pc, cur, ctl, todo, sub, setrefs, crt, vok, blk, stale, faults, recs>>
 Deactivate(r) == /\ rev[r].act
                  /\ rev' = [rev EXCEPT ![r].act = FALSE] /\ Log(H("env", "deactivate", r, "")) /\ EnvUnch
 Activate(r) == /\ ~rev[r].act /\ ~rev[Other(r)].act
                /\ rev' = [rev EXCEPT ![r].act = TRUE] /\ Log(H("env", "activate", r, "")) /\ EnvUnch
 Env == pc = "idle" /\ edits < MaxEdits /\ \E r \in Revs : Deactivate(r) \/ Activate(r)
+
+\* In the middle of an Establish: another owner (Q) makes itself the controller of an uncontrolled object of the package.
+\* If the establisher has read the object already, its copy (and the resourceVersion in it) is out of date: the API
+\* server answers its dry-run or real Update with a Conflict, Establish returns the error and the object stays as Q
+\* left it.  If it has not read it yet, it finds it controlled by somebody else.
+WasRead(o) == \/ pc = "est"
+              \/ (pc = "val" /\ \A i \in DOMAIN todo : todo[i] # o)
+              \/ (pc = "val" /\ todo # <<>> /\ Head(todo) = o /\ sub = "dry")
+Grab(o) == /\ Grabs /\ pc \in {"val", "est"} /\ edits < MaxEdits
+           /\ o \in Pkg(cur) /\ obj[o].ex /\ Ctrl(obj[o]) = None
+           /\ obj' = [obj EXCEPT ![o].own["Q"] = "ctrl"]
+           /\ stale' = (IF WasRead(o) THEN stale \cup {o} ELSE stale)
+           /\ edits' = edits + 1 /\ Log(H("env", "grab", o, ""))
+           /\ UNCHANGED <<rej, rev, pc, cur, ctl, todo, sub, setrefs, crt, vok, blk, faults, recs, doneOk>>
 
 ----------------------------------------------------------------------------
 (* The reconcile of one revision.  f = "ok" | "fail" (error / conflict /   *)
@@ -140,13 +156,13 @@ Env == pc = "idle" /\ edits < MaxEdits /\ \E r \in Revs : Deactivate(r) \/ Activ
 (* (the effect is applied and the reconcile ends; real writes only).       *)
 
 CanFault == faults < MaxFaults
-End == /\ pc' = "idle" /\ todo' = <<>> /\ sub' = "get" /\ setrefs' = FALSE /\ crt' = {} /\ vok' = {} /\ blk' = {}
+End == /\ pc' = "idle" /\ todo' = <<>> /\ sub' = "get" /\ setrefs' = FALSE /\ crt' = {} /\ vok' = {} /\ blk' = {} /\ stale' = {}
        /\ recs' = recs + 1
 Ok(k, o) == Log(H("call", k, o, "ok")) /\ UNCHANGED faults
 Fail(k, o) == CanFault /\ faults' = faults + 1 /\ Log(H("call", k, o, "fail"))
 Crash(k, o) == CanFault /\ faults' = faults + 1 /\ Log(H("call", k, o, "crashAfter"))
 \* continue the reconcile at (p, t, s); the ghosts and counters of the call sequence stay
-Goto(p, t, s, sr) == /\ pc' = p /\ todo' = t /\ sub' = s /\ setrefs' = sr /\ UNCHANGED <<crt, vok, blk, recs>>
+Goto(p, t, s, sr) == /\ pc' = p /\ todo' = t /\ sub' = s /\ setrefs' = sr /\ UNCHANGED <<crt, vok, blk, stale, recs>>
 
 \* objects an Establish(control = c) by r cannot take over, judged on the cluster as it is now
 Blocked(r, c) == {o \in Pkg(r) : IF obj[o].ex THEN o \in rej \/ (c /\ Ctrl(obj[o]) \notin {None, r})
@@ -156,7 +172,7 @@ Blocked(r, c) == {o \in Pkg(r) : IF obj[o].ex THEN o \in rej \/ (c /\ Ctrl(obj[o
 Needs(r, c) == {o \in Pkg(r) : obj[o].ex \/ c}
 
 BeginEst(r, c) == /\ pc' = "val" /\ todo' = SeqOf(Pkg(r)) /\ sub' = "get" /\ setrefs' = FALSE
-                  /\ crt' = {} /\ vok' = {} /\ blk' = Blocked(r, c) /\ UNCHANGED recs
+                  /\ crt' = {} /\ vok' = {} /\ blk' = Blocked(r, c) /\ stale' = {} /\ UNCHANGED recs
 
 \* Reconcile: Get the revision; inactive => ReleaseObjects over status.objectRefs (no call if there is none).
 \* References with a kind sort before those without; the first one without a kind ends ReleaseObjects.
@@ -199,7 +215,7 @@ RelUpd ==
 \* ---- Establish, validate phase: per object Get, then a dry-run Create (missing, control) or Update.
 \* AddControllerReference refuses an object controlled by somebody else without any call.
 EstSeq == SeqOf(Needs(cur, ctl))
-ValNext(v, c) == /\ vok' = v /\ crt' = c /\ UNCHANGED <<blk, recs>>
+ValNext(v, c) == /\ vok' = v /\ crt' = c /\ UNCHANGED <<blk, stale, recs>>
                  /\ (IF Tail(todo) # <<>>
                      THEN pc' = "val" /\ todo' = Tail(todo) /\ sub' = "get" /\ UNCHANGED setrefs
                      ELSE IF EstSeq = <<>>
@@ -221,8 +237,8 @@ ValDry ==
   /\ pc = "val" /\ sub = "dry"
   /\ LET o == Head(todo) IN
      \/ /\ Ok(DryVerb(o), o)
-        /\ (IF o \in rej
-            THEN End                                      \* Invalid: Establish returns the error
+        /\ (IF o \in rej \/ o \in stale
+            THEN End                                      \* Invalid / Conflict (out-of-date copy): Establish returns the error
             ELSE ValNext(vok \cup {o}, IF obj[o].ex THEN crt ELSE crt \cup {o}))
      \/ Fail(DryVerb(o), o) /\ End
   /\ UNCHANGED <<obj, rej, rev, cur, ctl, edits, doneOk>>
@@ -239,9 +255,10 @@ EstWrite ==
   /\ pc = "est"
   /\ LET o == Head(todo) IN
      \* o \notin rej here: rej does not change and the dry-run of o passed in the validate phase
-     \/ Ok(WrVerb(o), o) /\ obj' = Written(o) /\ EstNext
+     \/ Ok(WrVerb(o), o) /\ o \notin stale /\ obj' = Written(o) /\ EstNext
+     \/ Ok(WrVerb(o), o) /\ o \in stale /\ End /\ UNCHANGED obj          \* Conflict: the copy read during validation is out of date
      \/ Fail(WrVerb(o), o) /\ End /\ UNCHANGED obj
-     \/ Crash(WrVerb(o), o) /\ End /\ obj' = Written(o)
+     \/ Crash(WrVerb(o), o) /\ End /\ obj' = (IF o \in stale THEN obj ELSE Written(o))
   /\ UNCHANGED <<rej, rev, cur, ctl, edits, doneOk>>
 
 \* ---- the reconciler records the refs (all objects of the package) and reports Healthy
@@ -254,13 +271,13 @@ Status ==
   /\ UNCHANGED <<obj, rej, cur, ctl, edits>>
 
 Rec == (\E r \in Revs : Start(r)) \/ RelGet \/ RelUpd \/ ValGet \/ ValDry \/ EstWrite \/ Status
-Next == Env \/ Rec
+Next == Env \/ Rec \/ \E o \in Objs : Grab(o)
 Spec == Init /\ [][Next]_vars
 
 ----------------------------------------------------------------------------
 (* C16 *)
 Changed(o) == obj'[o] # obj[o]
-EstStep == pc = "est" /\ \E o \in Objs : Changed(o)
+EstStep == pc = "est" /\ edits' = edits /\ \E o \in Objs : Changed(o)     \* (edits' = edits: not a step of the environment)
 RelStep == pc = "rel" /\ \E o \in Objs : Changed(o)
 
 \* no real write of an Establish unless nothing was blocked when it started and every needed dry-run passed
